@@ -954,6 +954,10 @@ lzma_index_dup(const lzma_index *src, const lzma_allocator *allocator)
 	dest->record_count = src->record_count;
 	dest->index_list_size = src->index_list_size;
 
+	// Copy the bitmask of the Check IDs of the Streams other than
+	// the last one (see lzma_index_checks()).
+	dest->checks = src->checks;
+
 	// Copy the Streams and the groups in them.
 	const index_stream *srcstream
 			= (const index_stream *)(src->streams.leftmost);
